@@ -344,7 +344,7 @@ func c18Summarise(res c18Result, modelOK bool) gSummary {
 				ws = append(ws, c18ModelBytes(f))
 			}
 			for _, run := range []*gRun{off, on} {
-				cfg := fmt.Sprintf("1111%d:%d:%d", map[bool]int{false: 0, true: 1}[run.Case.Prog.Alloc], c18PageSize, mt)
+				cfg := fmt.Sprintf("%s%d:%d:%d", c18Bits, map[bool]int{false: 0, true: 1}[run.Case.Prog.Alloc], c18PageSize, mt)
 				tr := c18Trace(run, frames, mt)
 				s.Lines = append(s.Lines, "c18.run "+cfg+" "+strings.Join(tr, " "))
 				s.Wants = append(s.Wants, c18Want{Wire: strings.Join(ws, ","), Used: 1, On: run.Case.Prog.Alloc})
@@ -356,10 +356,16 @@ func c18Summarise(res c18Result, modelOK bool) gSummary {
 	return s
 }
 
+// c18Bits: the four allocator facts of the c18.run cfg token, replaced in checkC18 by the regenerated ones (gCurCfg).
+var c18Bits = "1111"
+
 func checkC18(c *lib.Ctx) {
 	r := c.R
 	r.Rule = "request streams: (mixed) PRNG pipelines of depth 1…30 over all request kinds incl. failing ones; (read-lengths) READs of length 0, 1, 2, 32767…32769, 65535…65537, 100000, 262130…262132 (= page − 13 ± 1), 262143, 262144 and 300000 under max-tx-packet 32768 (default), 65536, 262131 and 262144, some crossing or past end of file; (writes) WRITEs up to the largest frame (262122 bytes); (held) 24…64 READs with one request held back while all others complete. Each stream is run serially (request after reply), pipelined un-gated, pipelined with PRNG handler durations, and pipelined with every instrumented call held and released in a chosen order (fifo, lifo, uniform, earliest-held-longest, hold-request-k) — each time against the server WITHOUT and WITH the allocator, same scratch tree and same forced order. A case = (server, stream, mode, order) = one pair of runs; non-trivial = at least one DATA reply or at least two requests in flight; distinct by (server, program, mode, order)"
 	thorough := c.Tier == "thorough"
+	if t := gCurCfg(c, "c18", "11111:262144:32768"); len(t) >= 4 {
+		c18Bits = t[:4]
+	}
 	modelOK := gProbeModel(c, "c18.run 11111 L A:01 T:0:1 W:0:aa D:0:1 S:0 X:0")
 	if !modelOK {
 		r.Skip("model comparison skipped: driver op `c18.run <cfg> <action>*` with the actions L A T W D O S X F (lean/Sftp/Driver/C18.lean) is not served by the driver binary given with --model")
